@@ -15,37 +15,57 @@ from . import common
 PROP = "C12"
 INFO = dict(
     technique="Lean 4 proof (block-sparse-row assembly denotes the sum of the embedded blocks for every triplet list "
-              "and every row-sorting permutation; dense scatter equals the same sum on simple graphs; symmetry, graph "
-              "sparsity, quadratic-form identity hence PSD; Mahalanobis identities; covariance / inverse contracts) + "
-              "model/implementation correspondence and an exact-rational oracle on random graphs and data",
+              "and every row-sorting permutation; dense scatter equals the same sum on simple graphs and is characterised "
+              "exactly (last writer wins) on every digraph; symmetry, graph sparsity, quadratic-form identity hence PSD; "
+              "Mahalanobis identities; covariance / inverse contracts; the coded truncated-SVD inverse equals the truncated "
+              "pseudo-inverse under numpy's SVD contract; object level = vector level; PCA of the precision; float32 "
+              "storage bound) + model/implementation correspondence and an exact-rational oracle on random graphs and "
+              "data + the statement tables of the four assembly routines and of the constructor dispatch regenerated "
+              "from the live source on every run",
     level_text="Theorems over an executable transcription of menpo/model/gmrf.py (triplets in the coded order, argsort, "
                "the indptr loop, BSR denotation with duplicates summed, `+=`/`=` dense scatter, diagonal constructors, "
-               "both Mahalanobis branches): for all graphs without repeated, antiparallel or self edges, any number of "
+               "both Mahalanobis branches, _covariance_matrix_inverse with both branches, GMRFModel's as_matrix / "
+               "from_vector layer): for all graphs without repeated, antiparallel or self edges, any number of "
                "features, both edge modes, sparse = dense = sum over edges (vertices) of the embedded inverted covariances; "
                "the sum is symmetric, graph-sparse and satisfies x'Px = sum_e x_e' B_e x_e, hence PSD whenever the "
                "blocks are (proved for the exact inverse and for the truncated pseudo-inverse of a sample covariance); "
-               "Mahalanobis distances are non-negative, zero at the mean, equal for both storages and for batched vs "
-               "single queries; the mean is the sample mean.  Tied to /repo by building real models on random "
+               "with n_components the coded s[:, :n] diag(1/v[:n]) d[:n, :] is proved equal to the truncated "
+               "pseudo-inverse sum_{i<n} w_i w_i'/(sigma_i |w_i|^2) of any orthogonal eigen-decomposition (numpy's SVD "
+               "contract, symmetric input, separated cut), which the model evaluates exactly on data with rational "
+               "eigen-decompositions after verifying the decomposition itself; it satisfies CB = BC = projector, BCB = B, "
+               "equals the inverse for full rank, and only lowers Mahalanobis distances; for every digraph without "
+               "self loops (antiparallel pairs included) the dense scatter is proved to hold the edge sum on diagonal "
+               "blocks and the last writer on off-diagonal blocks; Mahalanobis distances are non-negative, zero at the "
+               "mean, equal for both storages and for batched vs single queries (vector and object level); the mean is "
+               "the sample mean.  Tied to /repo by building real models on random "
                "undirected graphs, trees, antiparallel-free digraphs and edgeless graphs (2-7 vertices, 1-3 features, "
-               "modes x biases x dtypes x rank truncation) and diffing precision entries, indptr, mean and distances "
-               "against the Lean driver; an independent exact-rational oracle decides the property on the real code.",
-    level_note="Trusted: Lean kernel; axioms propext/Classical.choice/Quot.sound; Python harness; driver parser. "
+               "modes x biases x dtypes x rank truncation x input layouts x incremental flag) and diffing precision "
+               "entries, indptr, mean, mean() point sets and distances against the Lean driver; digraphs with "
+               "antiparallel pairs are diffed against the model only; an independent exact-rational oracle decides the "
+               "property on the real code; the assembly statements are re-extracted from the source and compared with "
+               "the model's tables by `decide`.",
+    level_note="Trusted: Lean kernel; axioms propext/Classical.choice/Quot.sound; Python harness; driver parser; the AST "
+               "reader of extract_c12.py. "
                "Contracts (modelled, checked numerically each run): scipy's bsr_matrix denotation (toarray / dot sum "
                "duplicate blocks, any column order); np.linalg.inv returns the inverse (the model inverts exactly and "
-               "checks C*B=1 itself); np.linalg.svd of a symmetric PSD matrix (truncated inverse = sum of u u'/sigma, "
-               "handed to the model as blocks); np.cov. Float rounding is absorbed by 1e-9 (float64) / 1e-4 (float32) "
+               "checks C*B=1 itself); np.linalg.svd (C = U diag(s) Vh, orthogonal factors, s descending: spot-verified "
+               "on the first unit of every truncated case, together with the common threshold at the cut); np.cov. "
+               "Float rounding is absorbed by 1e-9 (float64) / 1e-4 (float32) "
                "relative tolerances on inputs whose exact inverses are bounded.",
     rule="a case = one (graph, features per vertex, mode, bias, dtype, n_components, data set, query set) built in both "
          "storages; distinct = distinct (graph kind, V, edge set, k, mode, bias, dtype, n_components, data hash); "
-         "non-trivial = at least one edge or at least two vertices with k*V >= 2",
-    partial=["rank truncation (n_components): the truncated-SVD inverse leaves the rationals, so the model receives "
-             "the blocks from the harness (own eigen-decomposition of the exact covariance) and the theorem "
-             "truncated_inverse_symm_psd covers their symmetry/definiteness from the SVD contract; exactness of the "
-             "blocks themselves is decided by the oracle only",
-             "GMRFModel (Vectorizable samples) shares all code with GMRFVectorModel except as_matrix/from_vector; it is "
-             "exercised by the correspondence, not modelled separately",
-             "principal_components_analysis of the precision is not modelled (C10 covers the PCA identities); "
-             "incremental updates belong to C11"],
+         "non-trivial = at least one edge or at least two vertices with k*V >= 2; digraphs with antiparallel pairs are "
+         "outside the property's quantifier and are counted separately (model correspondence only)",
+    partial=["rank truncation on generic data: the eigen-decomposition of a generic covariance is irrational, so for "
+             "randomly drawn data with n_components below the block size the model still receives the blocks from the "
+             "harness (float eigen-decomposition) and only their placement, symmetry and definiteness are covered by "
+             "theorems; exactness of the truncated blocks is a theorem plus an exact model evaluation on the designed "
+             "data families with rational eigen-decompositions (Hadamard designs: every graph kind, both modes, 1-3 "
+             "features) and for n_components >= block size; elsewhere it is decided by the oracle",
+             "principal_components_analysis: the theorem precision_pca is about an exact eigen-decomposition of the "
+             "precision; the returned components are checked numerically as eigenpairs of the expected precision "
+             "(dense storage; the sparse branch goes through ARPACK and returns one component fewer, observed and "
+             "counted, not judged); incremental updates belong to C11"],
     assumptions=["generated data sets have exactly invertible covariances whose inverse entries are bounded by 256 "
                  "(checked on the exact rational inverse before the implementation runs)",
                  "for rank truncation the kept and dropped eigenvalues of every covariance differ by a factor >= 1.5"],
@@ -83,6 +103,40 @@ THEOREMS = [
     "MenpoModel.C12.build_correct",
     "MenpoModel.C12.build_coded_refuted_scalar_feature",
     "MenpoModel.C12.buildCoded_eq_fixed",
+    # extension: every digraph without self loops
+    "MenpoModel.C12.dense_general",
+    "MenpoModel.C12.dense_general_symmetric",
+    "MenpoModel.C12.sparse_minus_dense_offdiag",
+    "MenpoModel.C12.sparse_eq_dense_diag",
+    # extension: rank truncation
+    "MenpoModel.C12.svd_eq_spec_matrix",
+    "MenpoModel.C12.svdTrunc_eq_specTrunc",
+    "MenpoModel.C12.svdTrunc_full_rank_isInv",
+    "MenpoModel.C12.checkSpec_sound",
+    "MenpoModel.C12.specTrunc_identities",
+    "MenpoModel.C12.specTrunc_full_isInv",
+    "MenpoModel.C12.specTrunc_mono",
+    "MenpoModel.C12.truncChecked_spec",
+    "MenpoModel.C12.truncChecked_full_rank_eq_inv",
+    "MenpoModel.C12.buildTrunc_correct",
+    "MenpoModel.C12.precision_qf_mono",
+    "MenpoModel.C12.truncated_precision_le",
+    # extension: object level, PCA, float32 storage
+    "MenpoModel.C12.gmrfModel_eq_vectorModel",
+    "MenpoModel.C12.gmrfModel_mean",
+    "MenpoModel.C12.gmrfModel_query_batch_eq_single",
+    "MenpoModel.C12.fromVector_asVector",
+    "MenpoModel.C12.asVector_fromVector",
+    "MenpoModel.C12.precision_pca",
+    "MenpoModel.C12.storage_rounding_bound",
+    "MenpoModel.C12.storage_rounding_bound_rel",
+    # extension: the model is the interpretation of the statement tables regenerated from the source
+    "MenpoModel.C12.denseStep_eq_table",
+    "MenpoModel.C12.edgeTrips_eq_table",
+    "MenpoModel.C12.denseDiag_eq_table",
+    "MenpoModel.C12.diagTrips_eq_table",
+    "MenpoModel.C12.indptrStep_eq_table",
+    "MenpoModel.C12.build_dispatch",
 ]
 
 TOL64 = 1e-9
@@ -143,6 +197,109 @@ def trunc_inv(C, r):
     return B, True
 
 
+# ------------------------------------------------------------------------------- designed data (rational spectra)
+
+def hadamard(N):
+    H = [[1]]
+    while len(H) < N:
+        H = [r + r for r in H] + [r + [-x for x in r] for r in H]
+    return H
+
+
+ORTHO3 = [[[1, 0, 0], [0, 1, 0], [0, 0, 1]], [[1, 2, 2], [2, 1, -2], [2, -2, 1]], [[2, -1, 2], [2, 2, -1], [-1, 2, 2]],
+          [[1, 0, 0], [0, 3, -4], [0, 4, 3]], [[2, 3, 6], [3, -6, 2], [6, 2, -3]]]
+
+
+def ortho_matrix(rng, k):
+    """k x k integer matrix with pairwise orthogonal non-zero columns"""
+    if k == 1:
+        return [[rng.choice([1, 1, 2, -1])]]
+    if k == 2:
+        a, b = rng.choice([(1, 0), (1, 1), (2, 1), (1, 2), (3, 1), (1, -1), (2, -1)])
+        A = [[a, -b], [b, a]]
+    else:
+        A = [list(r) for r in rng.choice(ORTHO3)]
+    perm = list(range(k))
+    rng.shuffle(perm)
+    sg = [rng.choice([1, -1]) for _ in range(k)]
+    return [[A[r][perm[c]] * sg[c] for c in range(k)] for r in range(k)]
+
+
+def designed_data(rng, V, k):
+    """integer data matrix X (N x V*k) whose per-vertex, per-edge-difference and per-edge-concatenation sample
+    covariances all have rational eigen-decompositions: X_v = Z_v A' with Z = H R, H centred orthogonal columns of
+    a Hadamard matrix, R block diagonal (one V x V circulant per channel), A integer with orthogonal columns.
+    Returns (X, A)."""
+    n = V * k
+    N = 16 if n <= 15 else 32
+    H = hadamard(N)
+    rows = list(range(N))
+    rng.shuffle(rows)
+    cols = rng.sample(range(1, N), n)
+    sg = [rng.choice([1, -1]) for _ in range(n)]
+    Hn = [[H[r][cols[c]] * sg[c] for c in range(n)] for r in rows]          # column (v, i) at index v*k+i
+    A = ortho_matrix(rng, k)
+    circ = []
+    for i in range(k):
+        while True:
+            c = [rng.randint(-2, 2) for _ in range(V)]
+            if any(c):
+                break
+        c[0] += rng.choice([2, 3, 4]) * (1 if c[0] >= 0 else -1)                 # dominant diagonal: G_i well conditioned
+        circ.append(c)
+    Z = [[sum(Hn[r][u * k + i] * circ[i][(v - u) % V] for u in range(V)) for v in range(V) for i in range(k)]
+         for r in range(N)]
+    X = [[sum(Z[r][v * k + i] * A[a][i] for i in range(k)) for v in range(V) for a in range(k)] for r in range(N)]
+    return X, A
+
+
+def candidate_vectors(A, k, mode, has_edges):
+    cols = [[A[a][i] for a in range(k)] for i in range(k)]
+    if not has_edges or mode == "subtraction":
+        return cols
+    return [c + c for c in cols] + [c + [-x for x in c] for c in cols]
+
+
+def exact_spec(C, cands):
+    """(sig, W) with W rows the candidates sorted by exact eigenvalue (descending), or None when a candidate is not an
+    eigenvector of C / they are not pairwise orthogonal"""
+    d = len(C)
+    if len(cands) != d:
+        return None
+    out = []
+    for w in cands:
+        w = [Fraction(x) for x in w]
+        n2 = sum(x * x for x in w)
+        if n2 == 0:
+            return None
+        Cw = [sum(C[p][q] * w[q] for q in range(d)) for p in range(d)]
+        sig = sum(a * b for a, b in zip(w, Cw)) / n2
+        if any(Cw[p] != sig * w[p] for p in range(d)):
+            return None
+        out.append((sig, w))
+    for i in range(d):
+        for j in range(i):
+            if sum(a * b for a, b in zip(out[i][1], out[j][1])) != 0:
+                return None
+    out.sort(key=lambda t: -t[0])
+    return [t[0] for t in out], [t[1] for t in out]
+
+
+def spec_trunc(sig, W, r):
+    d = len(W)
+    r = min(r, d)
+    return [[sum(W[i][p] * W[i][q] / (sig[i] * sum(x * x for x in W[i])) for i in range(r)) for q in range(d)]
+            for p in range(d)]
+
+
+def spec_cut_ok(sig, r):
+    d = len(sig)
+    r = min(r, d)
+    if r == 0 or sig[r - 1] <= 0 or sig[0] > 10 ** 4 * sig[r - 1]:
+        return False
+    return r == d or sig[r - 1] >= Fraction(3, 2) * sig[r]
+
+
 # ------------------------------------------------------------------------------- generators
 
 def gen_graph(rng, kind, V):
@@ -160,6 +317,10 @@ def gen_graph(rng, kind, V):
         es = [rng.choice(pairs)]
     if kind == "directed":
         es = [(a, b) if rng.random() < 0.5 else (b, a) for a, b in es]
+    elif kind == "directed-antiparallel":
+        es = [(a, b) if rng.random() < 0.5 else (b, a) for a, b in es]
+        both = [e for e in es if rng.random() < 0.5] or [es[0]]
+        es = es + [(b, a) for a, b in both]
     else:
         es = [(a, b) if rng.random() < 0.7 else (b, a) for a, b in es]
     rng.shuffle(es)
@@ -175,7 +336,7 @@ def make_graph(kind, V, edges, root):
         return DirectedGraph(np.zeros((V, V), dtype=int))
     if kind == "tree":
         return Tree.init_from_edges(np.array(edges), V, root)
-    if kind == "directed":
+    if kind in ("directed", "directed-antiparallel"):
         return DirectedGraph.init_from_edges(np.array(edges), V)
     return UndirectedGraph.init_from_edges(np.array(edges), V)
 
@@ -185,7 +346,8 @@ def gen_case(rng, force=None):
     force = force or {}
     kind = force.get("kind") or rng.choice(["undirected", "undirected", "tree", "directed", "directed", "edgeless",
                                             "edgeless-directed"])
-    V = force.get("V") or rng.choice([2, 3, 3, 4, 4, 5, 5, 6, 7])
+    designed = bool(force.get("designed"))
+    V = force.get("V") or (rng.choice([2, 3, 3, 4, 4, 5]) if designed else rng.choice([2, 3, 3, 4, 4, 5, 5, 6, 7]))
     k = force.get("k") or rng.choice([1, 2, 2, 3])
     root = None
     if "edges" in force:
@@ -201,42 +363,85 @@ def gen_case(rng, force=None):
     bias = force["bias"] if "bias" in force else rng.choice([0, 1])
     dtype = force.get("dtype") or rng.choice(["float64", "float64", "float32"])
     dim = k if not edges else (2 * k if mode == "concatenation" else k)
-    nc = force["n_components"] if "n_components" in force else (rng.randint(1, dim) if rng.random() < 0.25 else None)
-    N = dim + rng.randint(3, 8)
-    X = [[Fraction(rng.randint(-24, 24), 4) for _ in range(V * k)] for _ in range(N)]
     m = rng.choice([1, 2, 3])
-    Q = [[Fraction(rng.randint(-24, 24), 4) for _ in range(V * k)] for _ in range(m)]
+    A = None
+    if designed:
+        nc = force["n_components"] if "n_components" in force else rng.randint(1, dim + 1)
+        X, A = designed_data(rng, V, k)
+        X = [[Fraction(x) for x in r] for r in X]
+        Q = [[Fraction(rng.randint(-12, 12)) for _ in range(V * k)] for _ in range(m)]
+    else:
+        nc = force["n_components"] if "n_components" in force else (rng.randint(1, dim + 1) if rng.random() < 0.25 else None)
+        N = dim + rng.randint(3, 8)
+        den = rng.choice([4, 4, 1])                   # den 1: integer data (may be handed over with an integer dtype)
+        X = [[Fraction(rng.randint(-24, 24), den) for _ in range(V * k)] for _ in range(N)]
+        Q = [[Fraction(rng.randint(-24, 24), 4) for _ in range(V * k)] for _ in range(m)]
+    integral = all(x.denominator == 1 for r in X for x in r)
+    layout = force.get("layout") or rng.choice(["array", "array", "list", "fortran"] + (["int", "int"] if integral else []))
+    vectorizable = bool(k in (2, 3) and rng.random() < 0.3)
+    if vectorizable:
+        layout = "array"
+    extra = []
+    if layout == "list" and rng.random() < 0.5:
+        # a longer list handed over with n_samples=len(X): _data_to_matrix keeps the first n_samples rows only
+        extra = [[Fraction(rng.randint(-24, 24), 4) for _ in range(V * k)] for _ in range(rng.randint(1, 3))]
     return dict(kind=kind, V=V, k=k, edges=[list(e) for e in edges], root=root, mode=mode, bias=bias, dtype=dtype,
                 n_components=nc, X=[[str(x) for x in r] for r in X], Q=[[str(x) for x in r] for r in Q],
-                vectorizable=bool(k in (2, 3) and rng.random() < 0.3))
+                vectorizable=vectorizable, layout=layout, incremental=bool(rng.random() < 0.25), designed_A=A,
+                X_extra=[[str(x) for x in r] for r in extra])
+
+
+def case_dim(case):
+    return case["k"] if not case["edges"] else (2 * case["k"] if case["mode"] == "concatenation" else case["k"])
+
+
+def unit_data(case, X, unit):
+    if case["edges"]:
+        return edge_rows(X, case["k"], case["mode"], tuple(unit))
+    k = case["k"]
+    return [r[unit * k:(unit + 1) * k] for r in X]
+
+
+def unit_block(case, X, unit):
+    """(how, block, spec) for one edge / vertex: how = 'inv' (exact inverse), 'spec' (exact truncated inverse from a
+    verified rational eigen-decomposition, spec = (sig, W)), 'float' (truncated inverse from a float
+    eigen-decomposition) or None when the data set is rejected (singular / ill conditioned / no gap)"""
+    nc = case["n_components"]
+    C = f_cov(unit_data(case, X, unit), case["bias"])
+    B = f_inv(C)
+    if B is None or max(abs(x) for row in B for x in row) > INV_BOUND:
+        return None, None, None
+    if nc is None or nc >= len(C) and not case.get("designed_A"):
+        return "inv", B, None
+    if case.get("designed_A"):
+        sp = exact_spec(C, candidate_vectors(case["designed_A"], case["k"], case["mode"], bool(case["edges"])))
+        if sp is not None:
+            if not spec_cut_ok(sp[0], nc):
+                return None, None, None
+            return "spec", spec_trunc(sp[0], sp[1], nc), sp
+    Bt, ok = trunc_inv(C, nc)
+    if not ok:
+        return None, None, None
+    return "float", Bt, None
 
 
 def expected_blocks(case):
-    """per edge (or per vertex) the inverted covariance: exact Fractions (n_components None) or floats (truncated).
+    """per edge (or per vertex) the inverted covariance: exact Fractions (exact inverse, or exact truncated inverse
+    where the eigen-decomposition is rational) or floats (truncated, generic data).
     Returns (units, blocks, exact) or None when the data set is rejected (singular / ill conditioned / no gap)."""
     X = [[Fraction(x) for x in r] for r in case["X"]]
-    k, V, mode, bias, nc = case["k"], case["V"], case["mode"], case["bias"], case["n_components"]
     edges = [tuple(e) for e in case["edges"]]
-    if edges:
-        units = edges
-        datas = [edge_rows(X, k, mode, e) for e in edges]
-    else:
-        units = list(range(V))
-        datas = [[r[v * k:(v + 1) * k] for r in X] for v in units]
-    blocks = []
-    for D in datas:
-        C = f_cov(D, bias)
-        B = f_inv(C)
-        if B is None or max(abs(x) for row in B for x in row) > INV_BOUND:
+    units = edges if edges else list(range(case["V"]))
+    blocks, hows = [], set()
+    for u in units:
+        how, B, _ = unit_block(case, X, u)
+        if how is None:
             return None
-        if nc is not None:
-            Bt, ok = trunc_inv(C, nc)
-            if not ok:
-                return None
-            blocks.append(Bt)
-        else:
-            blocks.append(B)
-    return units, blocks, nc is None
+        hows.add(how)
+        blocks.append(B)
+    if "float" in hows and len(hows) > 1:
+        blocks = [[[float(x) for x in r] for r in B] for B in blocks]
+    return units, blocks, "float" not in hows
 
 
 def expected_precision(case, units, blocks):
@@ -266,6 +471,31 @@ def expected_precision(case, units, blocks):
     return P
 
 
+def placement_abs(case, units, blocks):
+    """(A, C): per entry the sum of |stored block entries| placed there and the number of stored blocks (float arrays);
+    the float32 clause of the oracle (theorem storage_rounding_bound_rel) is stated with them"""
+    import numpy as np
+    k, V = case["k"], case["V"]
+    n = V * k
+    A, C = np.zeros((n, n)), np.zeros((n, n))
+    for unit, B in zip(units, blocks):
+        Bf = np.abs(np.array([[float(x) for x in r] for r in B]))
+        if not case["edges"]:
+            sl = slice(unit * k, (unit + 1) * k)
+            A[sl, sl] += Bf
+            C[sl, sl] += 1
+        elif case["mode"] == "concatenation":
+            idx = [v * k + a for v in unit for a in range(k)]
+            A[np.ix_(idx, idx)] += Bf
+            C[np.ix_(idx, idx)] += 1
+        else:
+            u, v = unit
+            for p, q in ((u, u), (v, v), (u, v), (v, u)):
+                A[p * k:(p + 1) * k, q * k:(q + 1) * k] += Bf
+                C[p * k:(p + 1) * k, q * k:(q + 1) * k] += 1
+    return A, C
+
+
 # ------------------------------------------------------------------------------- implementation runner
 
 def build_models(case):
@@ -279,6 +509,18 @@ def build_models(case):
         X = np.array([[float(Fraction(x)) for x in r] for r in case["X"]])
         dt = getattr(np, case["dtype"])
         kw = dict(mode=case["mode"], n_components=case["n_components"], dtype=dt, bias=case["bias"])
+        if case.get("incremental"):
+            kw["incremental"] = True
+        layout = case.get("layout", "array")
+        Xin = X
+        if layout == "list":
+            Xin = [row.copy() for row in X] + [np.array([float(Fraction(x)) for x in r]) for r in case.get("X_extra") or []]
+            if case.get("X_extra"):
+                kw["n_samples"] = len(X)
+        elif layout == "fortran":
+            Xin = np.asfortranarray(X)
+        elif layout == "int":
+            Xin = X.astype(np.int64)
         if case["vectorizable"]:
             from menpo.model import GMRFModel
             from menpo.shape import PointCloud
@@ -287,8 +529,8 @@ def build_models(case):
             md = GMRFModel(samples, g, sparse=False, **kw)
         else:
             from menpo.model import GMRFVectorModel
-            ms = GMRFVectorModel(X, g, sparse=True, **kw)
-            md = GMRFVectorModel(X, g, sparse=False, **kw)
+            ms = GMRFVectorModel(Xin, g, sparse=True, **kw)
+            md = GMRFVectorModel([r.copy() for r in Xin] if layout == "list" else Xin, g, sparse=False, **kw)
         return "ok", (ms, md, g)
     except Exception as e:
         return "exc", type(e).__name__, str(e)[:120]
@@ -311,7 +553,7 @@ def mahal(model, case, q, single):
 def py_replay(case):
     return ("import numpy as np; from fractions import Fraction as F\n"
             "from menpo.model import GMRFVectorModel; from menpo.shape import UndirectedGraph, DirectedGraph, Tree\n"
-            "X = np.array([[float(F(x)) for x in r] for r in case['X']])\n"
+            "X = np.array([[float(F(x)) for x in r] for r in case['X']])   # handed over as case['layout'] (a list is followed by the rows case['X_extra'] and n_samples=len(X)), incremental=case['incremental']\n"
             "g = <%s on %d vertices, edges %r%s>\n"
             "ms = GMRFVectorModel(X, g, mode=%r, n_components=%r, dtype=np.%s, bias=%r, sparse=True)\n"
             "md = GMRFVectorModel(X, g, ..., sparse=False); compare ms.precision.toarray(), md.precision, "
@@ -369,7 +611,7 @@ def run_case(ctx, case, lines, pending, with_model=True):
     else:
         ms, md, g = res[1]
         try:
-            oracle(ctx, case, ms, md, E, Ef, exact, scale, tol, site, rp)
+            oracle(ctx, case, ms, md, E, Ef, exact, scale, tol, site, rp, units, blocks)
         except common.Infra:
             raise
         except Exception as e:  # an exception inside the public API calls of the oracle is an oracle failure
@@ -388,31 +630,50 @@ def run_case(ctx, case, lines, pending, with_model=True):
         g_edges = [tuple(int(x) for x in e) for e in res[1][2].edges.tolist()]
     else:
         g_edges = edges
-    etoks = "%d %s" % (len(g_edges), " ".join("%d %d" % e for e in g_edges))
-    X = [[Fraction(x) for x in r] for r in case["X"]]
-    Q = [[Fraction(x) for x in r] for r in case["Q"]]
-    if exact or model_op == "build-coded":
-        lines.append("%s %s %s %d %d %d %s %s %s" % (cid, model_op, m, k, V, case["bias"], etoks, common.fmat(X), common.fmat(Q)))
-    else:
-        # blocks in the order of graph.edges (the harness' own unit order may differ): recompute per g edge
-        Xf = X
-        if g_edges:
-            datas = [edge_rows(Xf, k, case["mode"], e) for e in g_edges]
-        else:
-            datas = [[r[v * k:(v + 1) * k] for r in Xf] for v in range(V)]
-        bl = []
-        for D in datas:
-            Bt, ok = trunc_inv(f_cov(D, case["bias"]), case["n_components"])
-            if not ok:
-                return True
-            bl.append(Bt)
-        lines.append("%s given %s %d %d %s %d %s %s %s" % (
-            cid, m, k, V, etoks, len(bl), " ".join(common.fmat(B.tolist()) for B in bl), common.fmat(X), common.fmat(Q)))
-    pending[cid] = (case, res, scale, tol, model_op)
+    line = model_line(ctx, case, cid, m, model_op, g_edges)
+    if line is None:
+        return True
+    lines.append(line[0])
+    pending[cid] = (case, res, scale, tol, line[1])
     return True
 
 
-def oracle(ctx, case, ms, md, E, Ef, exact, scale, tol, site, rp):
+def model_line(ctx, case, cid, m, model_op, g_edges):
+    """(request line, op) for the Lean driver; units in the order of graph.edges (the harness' own unit order may differ)"""
+    k, V = case["k"], case["V"]
+    etoks = "%d %s" % (len(g_edges), " ".join("%d %d" % e for e in g_edges))
+    X = [[Fraction(x) for x in r] for r in case["X"]]
+    Q = [[Fraction(x) for x in r] for r in case["Q"]]
+    units = g_edges if g_edges else list(range(V))
+    if model_op == "build-coded":
+        return "%s build-coded %s %d %d %d %s %s %s" % (cid, m, k, V, case["bias"], etoks, common.fmat(X), common.fmat(Q)), model_op
+    got = [unit_block(case, X, u) for u in units]
+    hows = {h for h, _, _ in got}
+    if None in hows:
+        return None
+    if hows == {"inv"}:
+        if case["n_components"] is not None:
+            ctx.count("model:n_components>=block-size-as-exact-inverse")
+        if case["vectorizable"]:
+            pts = lambda r: common.fmat([r[v * k:(v + 1) * k] for v in range(V)])
+            return "%s build-obj %s %d %d %d %s %d %s %d %s" % (
+                cid, m, k, V, case["bias"], etoks, len(X), " ".join(pts(r) for r in X), len(Q),
+                " ".join(pts(r) for r in Q)), "build-obj"
+        if case.get("X_extra") and case.get("layout") == "list":
+            full = X + [[Fraction(x) for x in r] for r in case["X_extra"]]
+            return "%s build-ns %s %d %d %d 0 %d %s %s %s" % (cid, m, k, V, case["bias"], len(X), etoks, common.fmat(full),
+                                                            common.fmat(Q)), "build-ns"
+        return "%s build %s %d %d %d %s %s %s" % (cid, m, k, V, case["bias"], etoks, common.fmat(X), common.fmat(Q)), "build"
+    if hows == {"spec"}:
+        specs = " ".join("%d %s %s" % (len(sp[0]), common.fqs(sp[0]), common.fmat(sp[1])) for _, _, sp in got)
+        return "%s trunc %s %d %d %d %d %s %d %s %s %s" % (
+            cid, m, k, V, case["bias"], case["n_components"], etoks, len(got), specs, common.fmat(X), common.fmat(Q)), "trunc"
+    bl = [[[float(x) for x in r] for r in B] for _, B, _ in got]
+    return "%s given %s %d %d %s %d %s %s %s" % (
+        cid, m, k, V, etoks, len(bl), " ".join(common.fmat(B) for B in bl), common.fmat(X), common.fmat(Q)), "given"
+
+
+def oracle(ctx, case, ms, md, E, Ef, exact, scale, tol, site, rp, units=None, blocks=None):
     """the property statement on the real objects (independent of the Lean model)"""
     import numpy as np
     import scipy.sparse as sp
@@ -464,6 +725,19 @@ def oracle(ctx, case, ms, md, E, Ef, exact, scale, tol, site, rp):
                         ctx.fail(site + "/graph-sparse/" + name, "couples-non-adjacent",
                                  "%s precision couples vertices %d and %d (|block| = %.3g) which the graph does not join" % (
                                      name, u, v, np.abs(blk).max()), rp)
+    # float32 storage: both storages hold the exact matrix up to the rounding of the stored entries
+    # (theorem storage_rounding_bound_rel: u * sum |stored entries|; one more u per accumulation, factor 4 of slack)
+    if case["dtype"] == "float32" and exact and units is not None:
+        A, C = placement_abs(case, units, blocks)
+        fb = 4.0 * (C + 1.0) * 2.0 ** -24 * A + 1e-9 * (1.0 + scale)
+        for name, P in (("sparse", Ps), ("dense", Pd)):
+            over = np.abs(P - Ef) - fb
+            if float(over.max()) > 0:
+                I, J = np.unravel_index(over.argmax(), over.shape)
+                ctx.fail(site + "/float32-storage/" + name, "exceeds-rounding-bound",
+                         "%s float32 precision is %.3g away from the exact matrix at entry (%d,%d), the rounding of the "
+                         "stored entries allows %.3g" % (name, abs(P[I, J] - Ef[I, J]), I, J, fb[I, J]), rp)
+        ctx.count("float32-storage-bound-checked")
     # mean
     X = [[Fraction(x) for x in r] for r in case["X"]]
     mu = [sum(r[j] for r in X) / len(X) for j in range(n)]
@@ -508,6 +782,21 @@ def oracle(ctx, case, ms, md, E, Ef, exact, scale, tol, site, rp):
             ctx.check(all(abs(a - b) <= dbound for a, b in zip(got[name, False], got[name, True])),
                       site + "/mahalanobis/batch-vs-single/" + name, "differ", "batched %r single %r" % (
                           got[name, False], got[name, True]), rp)
+    # asking again gives the same answer (neither the model nor the caller's array is touched by a query)
+    q_before = q.copy()
+    state = {name: (np.asarray(mod.precision.toarray() if sp.issparse(mod.precision) else mod.precision).copy(),
+                    np.asarray(mod.mean_vector).copy()) for name, mod in (("sparse", ms), ("dense", md))}
+    for name, mod in (("sparse", ms), ("dense", md)):
+        again = mahal(mod, case, q, False)
+        ctx.check(len(again) == len(got[name, False]) and all(abs(a - b) <= dbound for a, b in zip(again, got[name, False])),
+                  site + "/mahalanobis/repeat/" + name, "differ",
+                  "the same batched query asked twice: %r then %r" % (got[name, False], again), rp)
+        Pn = np.asarray(mod.precision.toarray() if sp.issparse(mod.precision) else mod.precision)
+        ctx.check(np.array_equal(Pn, state[name][0]) and np.array_equal(np.asarray(mod.mean_vector), state[name][1]),
+                  site + "/mahalanobis/repeat/" + name, "model-changed-by-query",
+                  "precision or mean_vector changed while answering a query", rp)
+    if not np.array_equal(q, q_before):
+        ctx.count("observation:query-array-mutated")
     for name, mod in (("sparse", ms), ("dense", md)):
         mmean = mod.mean()
         d0 = float(mod.mahalanobis_distance(mmean))
@@ -528,6 +817,30 @@ def oracle(ctx, case, ms, md, E, Ef, exact, scale, tol, site, rp):
             ctx.notes["bsr_contract_violated"] = "bsr toarray() is not the sum of the stored blocks on some case"
             raise common.Infra("scipy bsr_matrix contract (toarray = sum of stored blocks) does not hold in this environment")
         ctx.count("contract:bsr-toarray-sums-blocks")
+    if case["n_components"] is not None:
+        # contract of np.linalg.svd spot-verified on the first unit (hypotheses of svdTrunc_eq_specTrunc):
+        # C = U diag(s) Vh, orthogonal factors, s >= 0 descending, and the cut separated by a common threshold
+        units = edges if edges else list(range(V))
+        Cq = f_cov(unit_data(case, X, units[0]), case["bias"])
+        Cf = np.array([[float(x) for x in r] for r in Cq])
+        U, sv, Vh = np.linalg.svd(Cf)
+        d = len(Cf)
+        r = min(case["n_components"], d)
+        sc = float(np.abs(Cf).max())
+        good = (float(np.abs(U.dot(np.diag(sv)).dot(Vh) - Cf).max()) <= 1e-9 * (1 + sc) and
+                float(np.abs(U.T.dot(U) - np.eye(d)).max()) <= 1e-9 and float(np.abs(Vh.dot(Vh.T) - np.eye(d)).max()) <= 1e-9 and
+                bool(np.all(sv >= 0)) and bool(np.all(np.diff(sv) <= 0)))
+        if not good:
+            raise common.Infra("np.linalg.svd contract does not hold in this environment")
+        ctx.count("contract:svd")
+        sp = exact_spec(Cq, candidate_vectors(case["designed_A"], k, case["mode"], bool(edges))) if case.get("designed_A") else None
+        if sp is not None and 0 < r:
+            tau = float(sp[0][r]) if r < d else 0.0
+            if not (sv[r - 1] > tau * (1 + 1e-9) - 1e-12 and (r == d or sv[r] <= tau * (1 + 1e-9) + 1e-12)):
+                raise common.Infra("np.linalg.svd singular values do not share the cut of the exact eigenvalues")
+            ctx.count("contract:svd-common-threshold")
+    if exact and case["n_components"] is None and not case.get("incremental") and case["dtype"] == "float64":
+        pca_observation(ctx, case, ms, md, Ef, scale, site, rp)
     if exact and case["n_components"] is None:
         # contract of np.linalg.inv spot-verified: C * inv(C) = 1 on the first unit
         units = edges if edges else list(range(V))
@@ -538,6 +851,48 @@ def oracle(ctx, case, ms, md, E, Ef, exact, scale, tol, site, rp):
         ctx.count("contract:inv")
 
 
+def pca_observation(ctx, case, ms, md, Ef, scale, site, rp):
+    """principal_components_analysis observes the precision (theorem precision_pca): every returned pair (c, nu) must be
+    an eigenpair of the expected precision with eigenvalue 1/nu, the components orthonormal, the mean the model mean,
+    and with all components kept the Mahalanobis distance is the whitened norm of the projections.  Dense storage is
+    judged; the sparse branch (ARPACK, one component fewer by construction) is observed and counted only."""
+    import numpy as np
+    n = case["V"] * case["k"]
+    try:
+        pca = md.principal_components_analysis()
+        comps = np.asarray(pca.components, dtype=float)
+        ev = np.asarray(pca.eigenvalues, dtype=float)
+    except Exception as e:
+        ctx.fail(site + "/pca/dense", "raises-" + type(e).__name__, "principal_components_analysis raised %s: %s" % (
+            type(e).__name__, str(e)[:120]), rp)
+        return
+    ctx.count("pca:dense-components=%s" % ("all" if len(ev) == n else "fewer"))
+    bound = 1e-8 * (1.0 + scale)
+    ok = comps.ndim == 2 and comps.shape[1] == n and len(ev) == comps.shape[0] and bool(np.all(ev > 0))
+    if ok and len(ev):
+        resid = float(np.abs(Ef.dot(comps.T) - comps.T / ev).max())
+        gram = float(np.abs(comps.dot(comps.T) - np.eye(len(ev))).max())
+        ok = resid <= bound and gram <= 1e-8 and bool(np.all(np.diff(ev) <= 1e-9 * (1 + ev.max())))
+    ctx.check(ok, site + "/pca/dense", "not-eigenpairs-of-precision",
+              "the components / eigenvalues returned by principal_components_analysis are not orthonormal eigenvectors of "
+              "the precision with inverted eigenvalues in descending order (shape %r, eigenvalues %r)" % (
+                  comps.shape, ev.tolist()), rp)
+    if ok and len(ev) == n:
+        q = np.array([[float(Fraction(x)) for x in r] for r in case["Q"]])
+        mu = np.asarray(md.mean_vector, dtype=float)
+        z = q - mu
+        white = ((z.dot(comps.T)) ** 2 / ev).sum(axis=1)
+        direct = np.einsum("ij,ij->i", z.dot(Ef), z)
+        sc = float(np.abs(direct).max())
+        ctx.check(bool(np.all(np.abs(white - direct) <= 1e-8 * (1 + sc))), site + "/pca/dense", "whitened-norm-differs",
+                  "sum (c_i.(x-mu))^2/nu_i = %r differs from (x-mu)'P(x-mu) = %r" % (white.tolist(), direct.tolist()), rp)
+    try:
+        ps = ms.principal_components_analysis()
+        ctx.count("pca:sparse-components=n%+d" % (len(ps.eigenvalues) - n))
+    except Exception as e:
+        ctx.count("pca:sparse-raises-" + type(e).__name__)
+
+
 # ------------------------------------------------------------------------------- model comparison
 
 def parse_reply(reply, n):
@@ -546,7 +901,7 @@ def parse_reply(reply, n):
         return None
     out, key = {}, None
     for t in toks[1:]:
-        if t in ("D", "S", "IP", "MU", "MS", "MD"):
+        if t in ("D", "S", "IP", "MU", "MS", "MD", "MR", "MO", "M1"):
             key = t
             out[key] = []
         else:
@@ -554,11 +909,35 @@ def parse_reply(reply, n):
     return out
 
 
+class _Soft(object):
+    """digraphs with antiparallel pairs are outside the property's quantifier: a disagreement between the real
+    constructors and the model there says that theorem dense_general no longer describes the code, but it is not
+    evidence against the property, so it is recorded (count + note) instead of being pursued as a mismatch"""
+
+    def __init__(self, ctx):
+        self.ctx = ctx
+
+    def mismatch(self, op, text, rp):
+        self.ctx.count("outside-quantifier:model-disagrees:" + op)
+        lst = self.ctx.notes.setdefault("outside_quantifier_disagreements", [])
+        if len(lst) < 8:
+            lst.append(dict(op=op, text=text[:300],
+                            case={k: v for k, v in rp.get("case", {}).items() if k not in ("X", "Q")}))
+
+    def count(self, key):
+        self.ctx.count("outside-quantifier:" + key)
+
+
 def compare_model(ctx, model, pending):
+    for cid, item in pending.items():
+        compare_one(_Soft(ctx) if item[4] == "build-outside" else ctx, model[cid], item)
+
+
+def compare_one(ctx, reply, item):
     import numpy as np
     import scipy.sparse as sp
-    for cid, (case, res, scale, tol, model_op) in pending.items():
-        reply = model[cid]
+    case, res, scale, tol, model_op = item
+    for _ in (0,):
         rp = dict(case=case, model_reply=reply[:400])
         n = case["V"] * case["k"]
         if res[0] != "ok":
@@ -605,7 +984,61 @@ def compare_model(ctx, model, pending):
             ctx.mismatch("mahalanobis-sparse", "distances %r, model %r" % (ds, MS), rp)
         if len(dd) != len(MD) or not all(abs(a - b) <= tol * (1 + dscale) for a, b in zip(dd, MD)):
             ctx.mismatch("mahalanobis-dense", "distances %r, model %r" % (dd, MD), rp)
+        if "MR" in out and not case["vectorizable"]:
+            MR = [float(Fraction(t)) for t in out["MR"]]
+            try:
+                dr = np.atleast_1d(md.mahalanobis_distance(q, subtract_mean=False)).astype(float).tolist()
+            except Exception as e:
+                dr = ["raises-" + type(e).__name__]
+            rscale = max([dscale] + [abs(x) for x in MR])
+            if len(dr) != len(MR) or not all(isinstance(a, float) and abs(a - b) <= tol * (1 + rscale) for a, b in zip(dr, MR)):
+                ctx.mismatch("mahalanobis-raw", "subtract_mean=False distances %r, model %r" % (dr, MR), rp)
+        if model_op == "build-obj":
+            MO = [float(Fraction(t)) for t in out.get("MO", [])]
+            try:
+                pts = np.asarray(ms.mean().points, dtype=float).ravel().tolist()
+            except Exception as e:
+                pts = []
+            if len(pts) != len(MO) or not all(common.close(a, b, 8.0, TOL64) for a, b in zip(pts, MO)):
+                ctx.mismatch("mean-object", "mean() points %r, model %r" % (pts, MO), rp)
+            M1 = [float(Fraction(t)) for t in out.get("M1", [])]
+            try:
+                d1 = mahal(ms, case, q, True)
+            except Exception:
+                d1 = []
+            if len(d1) != len(M1) or not all(abs(a - b) <= tol * (1 + dscale) for a, b in zip(d1, M1)):
+                ctx.mismatch("mahalanobis-object-single", "single-instance distances %r, model %r" % (d1, M1), rp)
         ctx.count("model:compared")
+        ctx.count("model-op:" + model_op)
+
+
+def run_outside_case(ctx, case, lines, pending):
+    """digraphs with antiparallel pairs: outside the property's quantifier, so no oracle; the real constructors are
+    diffed against the model (theorem dense_general: sum on diagonal blocks, last writer on off-diagonal blocks)"""
+    import numpy as np
+    X = [[Fraction(x) for x in r] for r in case["X"]]
+    edges = [tuple(e) for e in case["edges"]]
+    for u in edges:
+        if unit_block(case, X, u)[0] != "inv":
+            return False
+    res = build_models(case)
+    if res[0] != "ok":
+        ctx.count("outside-quantifier:" + res[0] + "-" + res[1])
+        return False
+    ms, md, g = res[1]
+    g_edges = [tuple(int(x) for x in e) for e in g.edges.tolist()]
+    pairs = {(a, b) for a, b in g_edges if (b, a) in g_edges}
+    ctx.count("outside-quantifier:antiparallel-digraph")
+    ctx.count("outside-quantifier:antiparallel-pairs=%d" % (len(pairs) // 2))
+    scale = float(np.abs(np.asarray(md.precision, dtype=float)).max())
+    tol = TOL64 if case["dtype"] == "float64" else TOL32
+    cid = "m%d" % len(lines)
+    line = model_line(ctx, case, cid, "c" if case["mode"] == "concatenation" else "s", "build", g_edges)
+    if line is None:
+        return False
+    lines.append(line[0])
+    pending[cid] = (case, res, scale, tol, "build-outside")
+    return True
 
 
 # ------------------------------------------------------------------------------- exploration
@@ -652,6 +1085,23 @@ def explore(ctx, n_random, lines, pending, with_model=True, corners=True):
         tries += 1
         if run_case(ctx, gen_case(rng), lines, pending, with_model):
             done += 1
+    # designed data: rational eigen-decompositions, n_components exact in the model
+    n_designed = max(8, n_random // 4)
+    done = tries = 0
+    while done < n_designed and tries < 20 * n_designed:
+        tries += 1
+        if run_case(ctx, gen_case(rng, dict(designed=True)), lines, pending, with_model):
+            done += 1
+            ctx.count("designed-rational-spectrum")
+    if with_model:
+        n_out = max(6, n_random // 10)
+        done = tries = 0
+        while done < n_out and tries < 20 * n_out:
+            tries += 1
+            case = gen_case(rng, dict(kind="directed-antiparallel", n_components=None, V=rng.choice([2, 3, 3, 4, 5])))
+            case["vectorizable"] = False
+            if run_outside_case(ctx, case, lines, pending):
+                done += 1
 
 
 def small_graphs(ctx, lines, pending):
@@ -690,7 +1140,10 @@ def search(ctx):
                 for dtype in ("float64", "float32"):
                     for sp_nc in (None, case.get("n_components")):
                         force = dict(kind=case["kind"], V=case["V"], k=case["k"], edges=case["edges"], root=case["root"],
-                                     mode=mode, bias=bias, dtype=dtype, n_components=sp_nc)
+                                     mode=mode, bias=bias, dtype=dtype, n_components=sp_nc,
+                                     designed=bool(case.get("designed_A")) and sp_nc is not None)
+                        if case["kind"] == "directed-antiparallel":
+                            continue              # outside the quantifier: nothing to search for
                         for _ in range(10):
                             if run_case(ctx, gen_case(rng, force), lines, pending, with_model=False):
                                 break
@@ -704,8 +1157,15 @@ def search(ctx):
     return bool(ctx.failures)
 
 
+def generated(ctx):
+    """statement tables of the assembly routines, re-read from the live source; `decide` obligations in GenProps/C12"""
+    from . import extract_c12
+    ok = common.build_generated(ctx, extract_c12.lean_files(), extract_c12.TARGETS, extract_c12.N_OBLIGATIONS)
+    ctx.count("generated-tables:" + ("ok" if ok else "broken"))
+
+
 def run(ctx):
-    common.prepare_lean(ctx, PROP, IMPORTS, THEOREMS)
+    common.prepare_lean(ctx, PROP, IMPORTS, THEOREMS, generated=generated)
     ctx.trusted += ["scipy.sparse.bsr_matrix denotation (duplicates summed; spot-verified every case)",
                     "np.linalg.inv / np.linalg.svd / np.cov contracts (spot-verified; the model inverts exactly and checks C*B=1)"]
     lines, pending = [], {}
@@ -732,7 +1192,7 @@ def replay(ctx, path):
         print("no recorded case in %s; re-running the quick exploration with seed %r" % (path, data.get("seed")))
         return run(common.Ctx(PROP, "quick", int(data.get("seed", 0))))
     print("replaying recorded case: %s" % json.dumps({k: case[k] for k in case if k not in ("X", "Q")}))
-    common.prepare_lean(ctx, PROP, IMPORTS, THEOREMS)
+    common.prepare_lean(ctx, PROP, IMPORTS, THEOREMS, generated=generated)
     lines, pending = [], {}
     if not run_case(ctx, case, lines, pending):
         print("recorded case is rejected by the generator's conditioning guard")
